@@ -198,6 +198,11 @@ impl<F: Float + SampleUniform + std::fmt::Debug, D: Hash + Copy, H: Hasher + Def
     fn densify(&mut self) -> anyhow::Result<()> {
         // now we run densification
         let m: usize = self.hsketch.len();
+        if self.nb_empty >= m as i64 {
+            // no bin was populated : there is nothing to copy from, searching a populated bin would never end
+            log::error!("OptDensMinHash::densify : no data was sketched");
+            return Err(anyhow::anyhow!("OptDensMinHash: cannot densify, no data was sketched"));
+        }
         let mut nbpass = 1u64;
         let inrange = Uniform::<usize>::new(0, m).unwrap();
         for k in 0..m {
@@ -383,6 +388,11 @@ impl<F: Float + SampleUniform + std::fmt::Debug, D: Hash + Copy, H: Hasher + Def
     fn densify(&mut self) -> anyhow::Result<()> {
         // now we run densification
         let m: usize = self.hsketch.len();
+        if self.nb_empty >= m as i64 {
+            // no bin was populated : there is nothing to copy from, the passes would never end
+            log::error!("RevOptDensMinHash::densify : no data was sketched");
+            return Err(anyhow::anyhow!("RevOptDensMinHash: cannot densify, no data was sketched"));
+        }
         let unif_m = Uniform::<usize>::new(0, m).unwrap();
         let mut pass: u64 = 1;
         while self.nb_empty > 0 {
